@@ -681,7 +681,7 @@ package argmapper
 //@   ensures  [supplied-values-stay] imp(err == nil || cgReport, forall(h, any, imp(in(h, ins), has(g.hash, h))))
 //@   ensures  [success-means-no-report] imp(err == nil, !cgReport)
 //@   ensures  [root-kept] imp(err == nil, typeis(vertexRoot, *rootVertex) && has(g.hash, hc(vertexRoot)) && hkind(hc(vertexRoot)) == 5)
-//@   assigns  graph.Graph, Outer, Inner, HashM, VisitM, []graph.Vertex, [][]graph.Vertex, valueVertex, typedArgVertex, typedOutputVertex, funcVertex, rootVertex, Value, valueInternal, []*Value, ErrArgumentUnsatisfied, []*Func, []interface{}, reported, dvisited, kpos, spos, fin, frozen, cnt, reqs, ins, cgReport
+//@   assigns  graph.Graph, Outer, Inner, HashM, VisitM, []graph.Vertex, [][]graph.Vertex, valueVertex, typedArgVertex, typedOutputVertex, funcVertex, rootVertex, Value, valueInternal, []*Value, ErrArgumentUnsatisfied, []*Func, []interface{}, reported, dvisited, kpos, spos, fin, frozen, cnt, reqs, outs, ins, cgReport
 //@   modifies forall(m, Inner, true), forall(m, Outer, true), forall(m, HashM, true)
 //@   tail-split
 //@   hint call-requires/.*endpoints-present using reps, step-reps, root, Add!, AddEdgeWeighted!, AddEdge!
@@ -970,7 +970,7 @@ package argmapper
 //@   ensures  [supplied-converters-listed] imp(result2 == nil, len(result1) >= len(b.convs) && forall(i, int, imp(0 <= i && i < len(b.convs), result1[i] == b.convs[i])))
 //@   ensures  [generator-error-returned] imp(result2 != nil, result0 == nil && result1 == nil)
 //@   ensures  [no-user-code-but-generators] planning == old(planning) && failed == old(failed) && nexec == old(nexec)
-//@   assigns  graph.Graph, Outer, Inner, HashM, valueVertex, typedArgVertex, typedOutputVertex, funcVertex, []interface{}, reqs, ins, []graph.Vertex, []*Func, Value, valueInternal
+//@   assigns  graph.Graph, Outer, Inner, HashM, valueVertex, typedArgVertex, typedOutputVertex, funcVertex, []interface{}, reqs, outs, ins, []graph.Vertex, []*Func, Value, valueInternal
 //@   modifies g, g.adjacencyOut, g.adjacencyIn, g.hash, forall(m, Inner, infoot(g, m))
 //@   before "var result []graph.Vertex" set ins = emptyset(any)
 //@   after "result = append(result, input)" set ins = add(ins, hc(input))
